@@ -106,7 +106,7 @@ structure G (s : Bool) (X : Nat → Prop) (w : World) : Prop where
   objC : ∀ d, d < w.nObjs → (w.objs d).owner = .caller → (w.objs d).libFin = 0
   objD : ∀ d, d < w.nObjs → (w.objs d).owner = .lib → (w.objs d).finalized = false →
     X d ∨ Att w d ∨ (s = false ∧ (w.objs d).held = false)
-  objV : ∀ d, d < w.nObjs → (w.objs d).viaDel ≤ (w.objs d).finCalls
+  objV : ∀ d, d < w.nObjs → (w.objs d).viaDel + (w.objs d).libFin ≤ (w.objs d).finCalls
   objE : s = true → ∀ d, d < w.nObjs → (w.objs d).owner = .lib → (w.objs d).viaDel = 0
   xLive : ∀ d, X d → d < w.nObjs ∧ (w.objs d).finalized = false ∧ (w.objs d).owner = .lib ∧
     (w.objs d).held = false
